@@ -28,8 +28,19 @@ std::string gen(Rng &r)
     const int nthreads = 2 + (int)r.below(3);
     o << "pol=" << r.below(4) << " ss=" << r.next() % 1000000007ULL;
     static const char alphabet[] = "rrrwwwhaasxyRWHU";
+    // half of the cases are structured: one appending writer going through whole append sessions, the others readers /
+    // header updaters / upgraders, so that the narrow windows (reader half-way through lockShared() while the writer
+    // leaves append mode) are actually sampled; the other half are free-form op strings
+    const bool structured = r.below(2) == 0;
     for (int t = 0; t < nthreads; ++t) {
         o << " T";
+        if (structured) {
+            static const char *writer[] = {"was", "wasW", "waW", "wasaW", "wax", "wasasW", "waWwas"};
+            static const char *reader[] = {"rR", "rRrR", "hH", "rRhH", "ryW", "rrR", "hHrR", "rRrRrR"};
+            const int reps = 1 + (int)r.below(3);
+            for (int k = 0; k < reps; ++k) o << (t == 0 ? writer[r.below(7)] : reader[r.below(8)]);
+            continue;
+        }
         const int n = 3 + (int)r.below(9);
         for (int i = 0; i < n; ++i) o << alphabet[r.below(sizeof(alphabet) - 1)];
     }
